@@ -6,6 +6,13 @@
 (* truncations and bit flips over every offset in the thorough tier).      *)
 (* sp = "bare" is a provider with an empty certificate store, no keys and  *)
 (* no clock.                                                               *)
+(* Beyond the classes enumerated below the driver adds, as cases of their  *)
+(* own that the same monitors judge: "alg_slot" (each place where a        *)
+(* message names an algorithm x every algorithm identifier found in the    *)
+(* library source under check, in XML-DSig, XML-Enc and RFC 6931),         *)
+(* "decl_encoding" (every genuine message behind an XML declaration that   *)
+(* names one of 28 encodings, raw and DEFLATE) and "fuzz" (inputs kept by  *)
+(* a coverage-guided generator).                                           *)
 (***************************************************************************)
 EXTENDS Naturals, Sequences, FiniteSets, TLC
 
